@@ -1,4 +1,4 @@
 SPECIFICATION TraceSpec
-INVARIANT I01
+INVARIANT J01
 POSTCONDITION TraceAccepted
 CHECK_DEADLOCK FALSE
